@@ -77,6 +77,13 @@ pub enum Op {
     /// needs the guard; result = protected counter
     Get { m: u8 },
 
+    /// `get_mut()` / `into_inner()` on the mutex (only generated in main after every other thread
+    /// was joined): result = protected value. `into_inner` replaces the mutex by a fresh one holding the value.
+    MtxGetMut { m: u8 },
+    MtxIntoInner { m: u8 },
+    RwGetMut { r: u8 },
+    RwIntoInner { r: u8 },
+
     // ---- RwLock<usize> ----
     /// result = protected value at acquisition
     Read { r: u8 },
@@ -261,6 +268,8 @@ impl Program {
             | Op::Unlock { m }
             | Op::Incr { m }
             | Op::Get { m }
+            | Op::MtxGetMut { m }
+            | Op::MtxIntoInner { m }
             | Op::CvWait { m, .. }
             | Op::CvWaitWhileZero { m, .. } => Some(*m),
             _ => None,
@@ -274,6 +283,8 @@ impl Program {
             | Op::TryWrite { r }
             | Op::UnlockR { r }
             | Op::UnlockW { r }
+            | Op::RwGetMut { r }
+            | Op::RwIntoInner { r }
             | Op::RwGet { r } => Some(*r),
             _ => None,
         })
@@ -376,6 +387,10 @@ impl fmt::Display for Op {
             Unlock { m } => write!(f, "m{}.unlock", m),
             Incr { m } => write!(f, "m{}.incr", m),
             Get { m } => write!(f, "m{}.get", m),
+            MtxGetMut { m } => write!(f, "m{}.get_mut", m),
+            MtxIntoInner { m } => write!(f, "m{}.into_inner", m),
+            RwGetMut { r } => write!(f, "rw{}.get_mut", r),
+            RwIntoInner { r } => write!(f, "rw{}.into_inner", r),
             Read { r } => write!(f, "rw{}.read", r),
             TryRead { r } => write!(f, "rw{}.try_read", r),
             Write { r } => write!(f, "rw{}.write", r),
